@@ -8,6 +8,7 @@ exhaustively enumerated slice (all outcome assignments x all priority orders) pe
 """
 import itertools
 import os
+import re
 import shutil
 import sqlite3
 
@@ -36,7 +37,8 @@ def init_worker(datadir):
         rec = {'method': method, 'args': arguments, 'c0': len(CTX.calls), 'i0': len(CTX.instantiations),
                'returned': False, 'ret': None, 'exc': None, 'max_providers': self.max_providers,
                'max_errors': self.max_errors, 'ignore_priority': self.ignore_priority,
-               'prio': {k: v['priority'] for k, v in self.providers.items()}, 'seq': CTX.world.log.seq}
+               'prio': {k: v['priority'] for k, v in self.providers.items()}, 'seq': CTX.world.log.seq,
+               'srv': id(self), 'cache_file': getattr(self, 'cache_uri', None)}
         EXECS.append(rec)
         try:
             r = orig(self, method, *arguments)
@@ -158,6 +160,10 @@ class C20:
         self.true_bal = {}
         self.facts_tx = {}         # txid -> list of snapshots ever returned by a provider / served
         self.facts_bc = set()
+        self.bc_exec_at = {}
+        # life time the library documents for a stored block count ("Store network blockcount in cache for N seconds")
+        m = re.search(r'for (\d+) seconds', S.Cache.store_blockcount.__doc__ or '')
+        self.bc_doc_ttl = int(m.group(1)) if m else None
         self.facts_fee = {}        # bucket -> set of raw provider answers
         self.facts_spent = {}      # (txid, n) -> set of bools
         self.facts_out = {}        # (txid, n) -> set((value, address))
@@ -347,7 +353,7 @@ class C20:
             self.check_failed_query('blockcount', EXECS[e0:], e)
             return None
         self.check_execs(EXECS[e0:])
-        self.check_blockcount_value(srv._blockcount, EXECS[e0:], 'constructor')
+        self.check_blockcount_value(srv._blockcount, EXECS[e0:], 'constructor', srv)
         self.w.outcome('ok', blockcount=srv._blockcount if isinstance(srv._blockcount, (int, bool)) or
                        srv._blockcount is None else repr(srv._blockcount))
         while len(self.services) <= slot:
@@ -366,6 +372,11 @@ class C20:
     def check_execs(self, execs):
         for e in execs:
             self.check_exec(e)
+            if e['method'] == 'blockcount':
+                # end-of-call time of the last provider execution for the block count, per Service and per cache file
+                now = self.w.clock.now
+                self.bc_exec_at[('srv', e['srv'])] = now
+                self.bc_exec_at[('cache', e['cache_file'])] = now
 
     def check_exec(self, e):
         w = self.w
@@ -440,8 +451,23 @@ class C20:
                          % (name, repr(exc)[:200] if exc is not None else 'returned False'))
 
     # -- query-level oracles ------------------------------------------------------------------------------
-    def check_blockcount_value(self, v, execs, where):
+    def check_blockcount_value(self, v, execs, where, srv=None):
         w = self.w
+        if srv is not None and isinstance(v, int) and v and not any(e['method'] == 'blockcount' for e in execs):
+            # served from memory or from the cache file without asking anybody: the copy is at most as old as the
+            # documented life times (BLOCK_COUNT_CACHE_TIME in memory, the stored entry's documented N seconds)
+            if self.bc_doc_ttl is None:
+                w.probe('blockcount_ttl_undocumented')
+            else:
+                cf = getattr(srv, 'cache_uri', None)
+                last = max(self.bc_exec_at.get(('srv', id(srv)), -1e18), self.bc_exec_at.get(('cache', cf), -1e18))
+                age = w.clock.now - last
+                w.probe('blockcount_from_cache')
+                if age > max(self.bc_doc_ttl, self.bc_cache_time) + 1:
+                    w.violation('expired_cache_answer', {'method': 'blockcount'},
+                                '%s: block count %r served without asking a provider %.0f s after the last provider '
+                                'answer was stored (documented life time %d s, BLOCK_COUNT_CACHE_TIME %d s)' %
+                                (where, v, age, self.bc_doc_ttl, self.bc_cache_time))
         if v is False or v is None:
             if any(e['ret'] is False or not e['returned'] for e in execs) or not self.facts_bc:
                 return
@@ -465,6 +491,11 @@ class C20:
         w = self.w
         e0 = len(EXECS)
         srv.results_cache_n = 0
+        self._pre_model = None
+        if name == 'gettransactions' and kwargs.get('after_txid'):
+            self._pre_model = ('set', self.cache_model_history(srv, args[0], kwargs['after_txid'],
+                                                               kwargs.get('limit', S.MAX_TRANSACTIONS)),
+                               self.cached_ids_of(srv, args[0]))
         if not replay:
             w.op('q_' + name, args=logargs(args), kw=kwargs)
         exc = None
@@ -504,7 +535,7 @@ class C20:
 
     # blockcount
     def o_blockcount(self, srv, args, kw, ret, execs):
-        self.check_blockcount_value(ret, execs, 'blockcount()')
+        self.check_blockcount_value(ret, execs, 'blockcount()', srv)
 
     # estimatefee
     def o_estimatefee(self, srv, args, kw, ret, execs):
@@ -686,6 +717,7 @@ class C20:
                 w.violation('cache_infidelity', sig, 'cached transaction %s differs from every stored answer' %
                             str(s.get('txid'))[:16])
         ids = [t.txid for t in ret if is_tx(t)]
+        self.check_cache_part_after(srv, address, kw.get('after_txid'), ids[:n_cache])
         if len(set(ids)) != len(ids) and not self.poisoned():
             dups = {i for i in ids if ids.count(i) > 1}
             heights = [t.block_height for t in ret if is_tx(t)]
@@ -696,6 +728,56 @@ class C20:
             w.violation('duplicate_transactions', dict(sig, cause='same_block_cache_order' if same_block else 'other'),
                         'history of %s lists a transaction twice: %s (heights %s)' %
                         (address, [i[:8] for i in ids], heights))
+
+    def check_cache_part_after(self, srv, address, after_txid, part):
+        """gettransactions(address, after_txid=X) with a cache part: every provider told the truth about one chain, so
+        the stored answers are prefixes of the address's confirmed history; the part served from the cache must be
+        the run of that history that directly follows X."""
+        w = self.w
+        if not after_txid or not part or self.lied or self.poisoned() or not self._pre_model:
+            return
+        _, model, cached = self._pre_model
+        from ref import codec as rcodec
+        hist = [c for c in self.chain.history_of(rcodec.address_to_script(address, self.network), View())
+                if c.height is not None]
+        true = [c.txid for c in hist]
+        if after_txid not in true:
+            return
+        w.probe('cache_part_after_txid_checked')
+        i = true.index(after_txid)
+        want = true[i + 1:i + 1 + len(part)]
+        if part == want:
+            return
+        hmap = {c.txid: c.height for c in hist}
+        if model is not None and part != model:
+            cause = 'not_the_cache_order'
+        elif any(x not in hmap for x in part):
+            cause = 'other'
+        else:
+            upto = max(true.index(x) for x in part)
+            skipped = [x for x in true[i + 1:upto + 1] if x not in part]
+            heights = {hmap[x] for x in part} | {hmap[after_txid]}
+            if any(x not in cached for x in skipped):
+                cause = 'partial_cache_taken_for_prefix'
+            elif all(hmap[x] in heights for x in skipped) and \
+                    all(hmap[a] <= hmap[b] for a, b in zip(part, part[1:])) and len(set(part)) == len(part):
+                cause = 'same_block_cache_order'
+            else:
+                cause = 'other'
+        w.violation('cache_infidelity', {'method': 'gettransactions', 'stage': 'cache_part_after_txid', 'cause': cause},
+                    'after_txid=%s: the cache served %s, the stored history continues %s' %
+                    (after_txid[:8], [x[:8] for x in part], [x[:8] for x in want]))
+
+    def cached_ids_of(self, srv, address):
+        try:
+            con = sqlite3.connect('file:%s?mode=ro' % srv.cache_uri, uri=True, timeout=0.05)
+            try:
+                return {r[0].hex() for r in con.execute('select txid from cache_transactions_node where address = ?',
+                                                        (address,))}
+            finally:
+                con.close()
+        except Exception:
+            return set()
 
     def o_getrawtransaction(self, srv, args, kw, ret, execs):
         w = self.w
@@ -824,10 +906,18 @@ class C20:
             if self.lied:
                 # providers with different views were composed; only element-wise fidelity is meaningful
                 ids_a = ids_b
+            # The known same-block defects all come from one thing: the cache lists an address's transactions by
+            # (block_height, cache index).  A deviation is attributed to them only if the served list is what that
+            # ordering gives over the rows the cache holds; anything else is a different violation.
+            model = self.cache_model_history(srv, args[0], kwargs.get('after_txid'),
+                                             kwargs.get('limit', self.S.MAX_TRANSACTIONS))
+            by_order = 'same_block_cache_order' if model is None or model == ids_b else 'not_the_cache_order'
+            if model is not None:
+                w.probe('cache_order_model_decided')
             if ids_b != ids_a[:len(ids_b)]:
                 reorder = self.same_block_reorder(args[0], ids_b) or self.permuted_in_block(args[0], ids_b, ids_a) or \
                     self.missing_share_block(ids_a, ids_b, kwargs.get('after_txid'))
-                w.violation('cache_infidelity', dict(sig, cause='same_block_cache_order' if reorder else 'other'),
+                w.violation('cache_infidelity', dict(sig, cause=by_order if reorder else 'other'),
                             'replayed history %s is no prefix of the stored answer %s' %
                             ([x[:8] for x in ids_b], [x[:8] for x in ids_a]))
             else:
@@ -846,10 +936,10 @@ class C20:
                     cause = 'after_txid_not_in_cache' if kwargs.get('after_txid') and not b else 'other'
                     if kwargs.get('after_txid') in self.chain.txs and \
                             self.chain.txs[kwargs['after_txid']].height == t.block_height:
-                        cause = 'same_block_cache_order'    # cut off by the cache's within-block order
+                        cause = by_order    # cut off by the cache's within-block order
                     elif b and self.missing_share_block([x['txid'] for x in a], [x['txid'] for x in b],
                                                         kwargs.get('after_txid')):
-                        cause = 'same_block_cache_order'
+                        cause = by_order
                     w.violation('cache_infidelity', dict(sig, cause=cause),
                                 'replay from cache lost confirmed transaction %s although the call succeeded' %
                                 t.txid[:16])
@@ -867,6 +957,49 @@ class C20:
                 same = first.block_hash == second.block_hash and len(set(b)) == len(b)
                 w.violation('cache_infidelity', dict(sig, cause='cache_index' if same else 'other'),
                             'replayed block differs: %s vs %s' % ([x[:8] for x in b], [x[:8] for x in a]))
+
+    def cache_model_history(self, srv, address, after_txid, limit):
+        """What "this address's cached transactions by (block_height, cache index), after `after_txid`, up to the
+        address's last_block" gives over the rows in the cache file now; None when that is not decidable (ties or
+        NULLs in the ordering, unreadable file).  Used only to tell the known ordering defects from anything else."""
+        try:
+            con = sqlite3.connect('file:%s?mode=ro' % srv.cache_uri, uri=True, timeout=0.05)
+        except Exception:
+            return None
+        try:
+            rows = con.execute('select t.txid, t.block_height, t."index" from cache_transactions t join '
+                               'cache_transactions_node n on n.txid = t.txid where n.address = ?', (address,)).fetchall()
+            addr = con.execute('select last_block from cache_address where address = ?', (address,)).fetchone()
+            after = None
+            if after_txid:
+                after = con.execute('select block_height from cache_transactions where txid = ?',
+                                    (bytes.fromhex(after_txid),)).fetchone()
+        except Exception:
+            return None
+        finally:
+            con.close()
+        if addr is None:
+            return []
+        seen, uniq = set(), []
+        for r in rows:
+            if r[0] not in seen:
+                seen.add(r[0])
+                uniq.append(r)
+        if after_txid:
+            if not (after and addr[0] and after[0]):
+                return []
+            uniq = [r for r in uniq if r[1] is not None and after[0] <= r[1] <= addr[0]]
+        if any(r[1] is None or r[2] is None for r in uniq):
+            return None
+        keys = [(r[1], r[2]) for r in uniq]
+        if len(set(keys)) != len(keys):
+            return None
+        uniq.sort(key=lambda r: (r[1], r[2]))
+        ids = [r[0].hex() for r in uniq]
+        if after_txid:
+            if after_txid in ids:
+                ids = ids[ids.index(after_txid) + 1:]
+        return ids[:limit]
 
     def permuted_in_block(self, address, ids_b, ids_a):
         from ref import codec as rcodec
